@@ -110,6 +110,9 @@ def plan(prop, tier):
         gens += [sc([G, G, G, G, "clean", "save", "load"], D=1, P=1), sc([G, G, G, G, "clean"], D=2, P=2, works=(1, 3)), sc([G, G, "clean", G, G, "clean"], D=4, P=1),
                  sc([G, G, G, G, "clean", "save", "load"], D=1, P=1, works=(1,), ties=True),
                  sc(["legacy", G, G, "clean", G], D=2, P=1),
+                 # the part of the chain that a Load keeps in memory starts exactly on a 1000-header file boundary
+                 sc([G, G, G, G, "save", "load"], D=2, P=2, S=(500,), shape=(0, 1, 2, 3)),
+                 sc([G, G, G, "save", "load", G, "clean"], D=1, P=1, S=(1000,), shape=(0, 1, 2, 3)),
                  # a fork becomes the best chain because the competing header is marked invalid, is consolidated
                  # and then pruned from memory
                  sc([G, G, "mark", "clean", G, G, "clean"], D=4, P=1),
